@@ -105,7 +105,7 @@ def facts_for(repo=REPO, features='default', quiet=False):
             sys.stderr.write('verif: extracted facts %s in %.1fs\n' % (os.path.basename(out), time.time() - t))
         # keep the facts directory small: newest 6 files
         fs = sorted(glob.glob(os.path.join(FACTS, '*.jsonl')), key=os.path.getmtime)
-        for old in fs[:-20]:
+        for old in fs[:-32]:
             try:
                 os.remove(old)
             except OSError:
